@@ -183,6 +183,25 @@ CLAIMED['C04'] = dict(
     technique="decision-table extraction and composition, validator-shape rules, index-domain rules and a mirror-sibling comparison under a lower<->upper renaming over the clang-resolved AST",
     ref="DESIGN.md section 4, C04")
 
+CLAIMED['C01'] = dict(
+    text="Plumbing clauses only: at every call site in SoPlexBase of a producer, transformer or consumer of a solution vector the vector handed over is "
+         "of the callee's kind, and the public getters read the stored vector of their own kind; in the store path internal scaling is undone before "
+         "unsimplify, an active simplifier always unsimplifies and all four vectors (and the basis) are then taken from it, persistent scaling is "
+         "undone before returning, all four vectors and both rays are unscaled with the LP that was passed; the simplex loop assigns OPTIMAL only "
+         "under priced && maxinfeas + shift() <= tolerance with no shift left (the documented escape is listed, not counted) and an OPTIMAL solution of "
+         "a transformed LP is verified; the objective of a vanished LP uses the user-space objective and offset. The numerical substance "
+         "(feasibility, dual signs, stationarity, completeness) is NOT decided.",
+    technique="vector-kind (units-of-measure) agreement at resolved call sites, must-pass-through under scaling/simplifier assumptions, control-dependence rules on status assignments",
+    ref="DESIGN.md section 4, C01")
+CLAIMED['C02'] = dict(
+    text="Plumbing clauses only: primal rays and Farkas vectors travel through their own producers, unscalers and getters; the 'has ray' / 'has Farkas' "
+         "flags are defined from the matching status and from 'the solver holds the user's LP', and under a flag the vector is fetched; simplifier "
+         "verdicts map to INFEASIBLE / UNBOUNDED / INForUNBD and never to OPTIMAL; with ENSURERAY a verdict of the simplifier or of a presolved LP is "
+         "re-established on the original LP; after an entering pivot apparent unboundedness under an active shift is reset; certificate builders "
+         "clear the vector before filling it. That a verdict is true and a certificate valid is NOT decided.",
+    technique="vector-kind agreement, flag-definition and flag-implies-fetch rules, decision-table rules on the verdict switches over the clang-resolved AST and CFG",
+    ref="DESIGN.md section 4, C02")
+
 NA = {
     'C10': "every clause quantifies over run-time numbers (residuals at rounding level, singular vs. well-conditioned, agreement of multi-rhs solves); "
            "no structural clause is both checkable and necessary (DESIGN.md section 5)",
